@@ -119,7 +119,7 @@ theorem g_ingress (macf : MacF) (P : Path) (s : Nat) (st en : Bool) (e : Entry) 
 theorem g_egress (macf : MacF) (P : Path) (s : Nat) (st : Bool) (e : Entry) (b ts : Nat) (cons : Bool)
     (c : VCtx)
     (hcur : P.currInf = s) (hseg : P.segIndex P.currHf = some (s, st, false))
-    (hnf : ¬ P.currHf + 1 ≥ P.hopCount)
+    (hnf : ¬ P.currHf + 1 ≥ P.hopCount) (hmax : P.hopCount ≤ MAX_TOTAL_HOPS + 1)
     (hh : P.hops[P.currHf]? = some (hopOf macf ts b e)) (hi : P.infos[s]? = some ⟨cons, false, b, ts⟩)
     (hkey : c.key = e.key) (hign : c.ignoreMacs = false) (hin : c.ingress = false)
     (hc : c.curIf = tEg cons e) (hts : ts ≤ c.now)
@@ -138,7 +138,8 @@ theorem g_egress (macf : MacF) (P : Path) (s : Nat) (st : Bool) (e : Entry) (b t
   have h2 : (s != P.currInf) = false := by simp [hcur]
   simp only [h2, Bool.false_eq_true, ↓reduceIte]
   rw [hh, hcur, hi]
-  simp only [hnf, Bool.false_eq_true, ↓reduceIte, hval]
+  have hmx : ¬ P.currHf + 1 > MAX_TOTAL_HOPS := by omega
+  simp only [hnf, hmx, Bool.false_eq_true, ↓reduceIte, hval]
   have halert : (hopOf macf ts b e).egressAlert cons = false := by cases cons <;> simp [Hop.egressAlert, hopOf]
   have hs1 := setAt_same _ _ _ hh
   simp only [halert, Bool.false_eq_true, ↓reduceIte, hs1]
@@ -150,7 +151,7 @@ theorem g_egress (macf : MacF) (P : Path) (s : Nat) (st : Bool) (e : Entry) (b t
 theorem g_crossover (macf : MacF) (P : Path) (s : Nat) (st : Bool) (e e' : Entry) (b sid ts b' ts' : Nat)
     (cons cons' : Bool) (c : VCtx) (fi : Bool) (la lb : IfState)
     (hcur : P.currInf = s) (hseg : P.segIndex P.currHf = some (s, st, true)) (hst : st = false)
-    (hnf : ¬ P.currHf + 1 ≥ P.hopCount)
+    (hnf : ¬ P.currHf + 1 ≥ P.hopCount) (hmax : P.hopCount ≤ MAX_TOTAL_HOPS + 1)
     (hh : P.hops[P.currHf]? = some (hopOf macf ts b e)) (hi : P.infos[s]? = some ⟨cons, false, sid, ts⟩)
     (hh' : P.hops[P.currHf + 1]? = some (hopOf macf ts' b' e')) (hi' : P.infos[s + 1]? = some ⟨cons', false, b', ts'⟩)
     (hsid : (if (!fi && !cons) = true then betaStep sid (hopOf macf ts b e).mac else sid) = b)
@@ -193,7 +194,8 @@ theorem g_crossover (macf : MacF) (P : Path) (s : Nat) (st : Bool) (e e' : Entry
   have halert : (hopOf macf ts b e).ingressAlert cons = false := by cases cons <;> simp [Hop.ingressAlert, hopOf]
   simp only [halert, Bool.and_false, Bool.false_eq_true, ↓reduceIte]
   have hs1 := setAt_same _ _ _ hh
-  simp only [hnf, decide_false, Bool.false_and, Bool.false_eq_true, ↓reduceIte, Bool.not_false, Bool.true_and,
+  have hmx : ¬ P.currHf + 1 > MAX_TOTAL_HOPS := by omega
+  simp only [hnf, hmx, decide_false, Bool.false_and, Bool.false_eq_true, ↓reduceIte, Bool.not_false, Bool.true_and,
     Bool.not_true, Bool.and_false]
   rw [hh', hi']
   simp only [hsegc, hval', hs1, hopOf_ingressIf, hopOf_egressIf]
@@ -214,7 +216,7 @@ theorem setAt_setAt {α} (l : List α) (i : Nat) (a b : α) : setAt (setAt l i a
 theorem g_route_mid (macf : MacF) (P : Path) (s : Nat) (st : Bool) (e : Entry) (b sid ts : Nat) (cons : Bool)
     (dst curIf now : Nat) (lookup : Nat → Option IfState) (lst : IfState)
     (hcur : P.currInf = s) (hseg : P.segIndex P.currHf = some (s, st, false))
-    (hnf : ¬ P.currHf + 1 ≥ P.hopCount)
+    (hnf : ¬ P.currHf + 1 ≥ P.hopCount) (hmax : P.hopCount ≤ MAX_TOTAL_HOPS + 1)
     (hh : P.hops[P.currHf]? = some (hopOf macf ts b e)) (hi : P.infos[s]? = some ⟨cons, false, sid, ts⟩)
     (hsid : (if (!(curIf == 0) && !cons) = true then betaStep sid (hopOf macf ts b e).mac else sid) = b)
     (hc : curIf = 0 ∨ curIf = tIn cons e) (hts : ts ≤ now)
@@ -233,7 +235,7 @@ theorem g_route_mid (macf : MacF) (P : Path) (s : Nat) (st : Bool) (e : Entry) (
   have hi1 : (setAt P.infos P.currInf (⟨cons, false, b, ts⟩ : Info))[P.currInf]? = some ⟨cons, false, b, ts⟩ :=
     setAt_get_self _ _ _ _ hi
   simp only [hi1, hl, hup, Bool.not_true, Bool.false_eq_true, ↓reduceIte]
-  rw [g_egress macf { P with infos := setAt P.infos P.currInf ⟨cons, false, b, ts⟩ } _ st e b ts cons _ rfl hseg hnf hh hi1
+  rw [g_egress macf { P with infos := setAt P.infos P.currInf ⟨cons, false, b, ts⟩ } _ st e b ts cons _ rfl hseg hnf hmax hh hi1
     rfl rfl rfl rfl hts hexp]
   simp [setAt_setAt]
 
@@ -261,7 +263,7 @@ theorem g_route_cross (macf : MacF) (P : Path) (s : Nat) (st st' : Bool) (e e' :
     (cons cons' : Bool) (dst curIf now : Nat) (lookup : Nat → Option IfState) (la lb : IfState)
     (hcur : P.currInf = s) (hseg : P.segIndex P.currHf = some (s, st, true)) (hst : st = false)
     (hseg' : P.segIndex (P.currHf + 1) = some (s + 1, st', false))
-    (hnf : ¬ P.currHf + 2 ≥ P.hopCount)
+    (hnf : ¬ P.currHf + 2 ≥ P.hopCount) (hmax : P.hopCount ≤ MAX_TOTAL_HOPS + 1)
     (hh : P.hops[P.currHf]? = some (hopOf macf ts b e)) (hi : P.infos[s]? = some ⟨cons, false, sid, ts⟩)
     (hh' : P.hops[P.currHf + 1]? = some (hopOf macf ts' b' e')) (hi' : P.infos[s + 1]? = some ⟨cons', false, b', ts'⟩)
     (hsid : (if (!(curIf == 0) && !cons) = true then betaStep sid (hopOf macf ts b e).mac else sid) = b)
@@ -280,7 +282,7 @@ theorem g_route_cross (macf : MacF) (P : Path) (s : Nat) (st st' : Bool) (e e' :
   have hnf1 : ¬ P.currHf + 1 ≥ P.hopCount := by omega
   unfold routeStd
   simp only []
-  rw [g_crossover macf P _ st e e' b sid ts b' ts' cons cons' _ _ la lb rfl hseg hst hnf1 hh hi hh' hi' hsid rfl hkey'
+  rw [g_crossover macf P _ st e e' b sid ts b' ts' cons cons' _ _ la lb rfl hseg hst hnf1 hmax hh hi hh' hi' hsid rfl hkey'
     rfl rfl rfl hc hts hts' hexp hexp' hla hlb hok]
   simp only [Bool.false_and, Bool.false_eq_true, ↓reduceIte]
   have hne : P.currInf ≠ P.currInf + 1 := by omega
@@ -289,7 +291,7 @@ theorem g_route_cross (macf : MacF) (P : Path) (s : Nat) (st st' : Bool) (e e' :
   simp only [hi1, hlb, hup, Bool.not_true, Bool.false_eq_true, ↓reduceIte]
   rw [g_egress macf { P with currHf := P.currHf + 1, currInf := P.currInf + 1,
                              infos := setAt P.infos P.currInf ⟨cons, false, b, ts⟩ } (P.currInf + 1) st' e' b' ts' cons' _
-    rfl (by simpa [Path.segIndex] using hseg') (by simp [Path.hopCount] at hnf ⊢; omega) hh' hi1
+    rfl (by simpa [Path.segIndex] using hseg') (by simp [Path.hopCount] at hnf ⊢; omega) (by simpa [Path.hopCount] using hmax) hh' hi1
     hkey' rfl rfl rfl hts' hexp']
   simp
 
@@ -373,7 +375,7 @@ theorem Seg.entry_some (g : Seg) (k : Nat) (hk : k < g.es.length) : ∃ e, g.ent
 /-- **travel inside one segment**: from travel position `k` the walk reaches the last hop field of the segment
     after `r = n-1-k` AS steps, with the SegID bookkeeping intact -/
 theorem seg_travel (macf : MacF) (t : Topo) (now dst : Nat) (F : Frame) (g : Seg) (s o : Nat)
-    (hocc : Occupies macf F g s o) (htr : TravelOK t g) (htm : g.Timely macf now) :
+    (hmaxF : F.L0 + F.L1 + F.L2 ≤ MAX_TOTAL_HOPS + 1) (hocc : Occupies macf F g s o) (htr : TravelOK t g) (htm : g.Timely macf now) :
     ∀ (r k : Nat) (e : Entry) (I : List Info) (curIf steps fuel : Nat),
       k + r + 1 = g.es.length → g.entry k = some e → Arr g k curIf e →
       I[s]? = some (g.info (g.arrSid macf k)) →
@@ -404,6 +406,7 @@ theorem seg_travel (macf : MacF) (t : Topo) (now dst : Nat) (F : Frame) (g : Seg
     have hroute := g_route_mid macf (F.pkt I s (o + k)) s (k == 0) e (g.beta macf k) (g.arrSid macf k) g.ts g.cons
       dst curIf now (t.lookup e.ia) _ rfl hseg
       (by have := hocc.fits; simp [Frame.pkt, Path.hopCount]; omega)
+      (by simpa [Frame.pkt, Path.hopCount] using hmaxF)
       (hocc.hops k e hkl he) hI (harr.hsid macf hkl he) harr.hc hts hexp hlook hup
     have hsidnext : (if g.cons = true then betaStep (g.beta macf k) (hopOf macf g.ts (g.beta macf k) e).mac else g.beta macf k) =
         g.arrSid macf (k + 1) := by
@@ -465,7 +468,7 @@ theorem seg_deliver (macf : MacF) (t : Topo) (now : Nat) (F : Frame) (g : Seg) (
     field of segment `s+1` validates both and the segment change, and forwards the packet over the egress
     interface of the second hop field; the neighbour receives it at travel position 1 of segment `s+1` -/
 theorem seg_cross (macf : MacF) (t : Topo) (now dst : Nat) (F : Frame) (g g' : Seg) (s o : Nat)
-    (hocc : Occupies macf F g s o) (hocc' : Occupies macf F g' (s + 1) (o + g.es.length))
+    (hmaxF : F.L0 + F.L1 + F.L2 ≤ MAX_TOTAL_HOPS + 1) (hocc : Occupies macf F g s o) (hocc' : Occupies macf F g' (s + 1) (o + g.es.length))
     (htr : TravelOK t g) (htr' : TravelOK t g') (htm : g.Timely macf now) (htm' : g'.Timely macf now)
     (e e0 : Entry) (I : List Info) (curIf steps fuel : Nat) (la lb : IfState)
     (he : g.entry (g.es.length - 1) = some e) (he0 : g'.entry 0 = some e0)
@@ -505,6 +508,7 @@ theorem seg_cross (macf : MacF) (t : Topo) (now dst : Nat) (F : Frame) (g g' : S
     (g.beta macf _) (g.arrSid macf _) g.ts (g'.beta macf 0) g'.ts g.cons g'.cons dst curIf now (t.lookup e.ia) la lb
     rfl hseg rfl (by show (F.pkt [] 0 0).segIndex (o + (g.es.length - 1) + 1) = _; rw [h3]; exact hseg')
     (by have := hocc'.fits; simp [Frame.pkt, Path.hopCount]; omega)
+    (by simpa [Frame.pkt, Path.hopCount] using hmaxF)
     (hocc.hops _ e hkl he) hI
     (by show F.H[o + (g.es.length - 1) + 1]? = _; rw [h3]; exact hocc'.hops 0 e0 (by omega) he0) hI'
     (harr.hsid macf hkl he) hkeys harr.hc hts hts' hexp hexp' hla hlb hok hlb'
